@@ -1,3 +1,4 @@
 SPECIFICATION Spec
+CONSTANT Ms = {200, 1440, 1460}
 INVARIANT EmitCases
 CHECK_DEADLOCK FALSE
